@@ -125,6 +125,8 @@ func TestCheck(t *testing.T) {
 		"seq, conc (2-8 goroutines per phase), race (goroutines racing for the t-th insert), batchreject (equivocation before/inside/after the batch completing another validator), with duty expiry between/during phases; " +
 		"exemptcap (11-30 never-expiring exit/registration duties for the same validator, shares pass the per-share cap of 10 at different times, late/replayed partials, interleaved with expiring duties; " +
 		"a key is judged only while every accepted partial of it is among the newest 10 never-expiring duties of its share, i.e. cannot have been evicted); " +
+		"exemptrace (shares at the never-expiring cap store further duties while goroutines complete thresholds on exactly the keys being evicted, slow MessageRoot; judged by trigger content and the race detector); " +
+		"sameshare (12-36 rounds per case: 2-4 goroutines behind one barrier store two different values of the SAME share, slow Clone); " +
 		"failed batches are re-submitted entry by entry so the accepted set is exact; non-trivial = at least one trigger and at least one of {equivocation rejected, duplicate ignored, minority root accepted, batch returned error}; " +
 		"distinct = hash of the generated scenario (keys, batches, phases)")
 	r.Assume("harness Deadliner is consistent: once a duty is expired every later Add answers DeadlineExpired; a duty is only expired while no store for it is in flight")
@@ -150,6 +152,12 @@ func TestCheck(t *testing.T) {
 	min("keys_reached_threshold", 3000)
 	min("keys_below_threshold_at_end", 1500)
 	min("exemptcap_cases", 100)
+	min("exemptrace_cases", 80)
+	min("exemptrace_completions_racing_eviction", 1000)
+	min("exemptrace_triggers_on_keys_under_eviction", 100)
+	min("sameshare_cases", 80)
+	min("sameshare_contests", 2000)
+	min("sameshare_contests_decided", 2000)
 	for _, typ := range core.AllDutyTypes() {
 		min("triggers/"+typ.String(), 150)
 	}
@@ -177,16 +185,20 @@ func runCase(c *kit.Case) {
 	switch k := rng.Intn(100); {
 	case k < 7:
 		kind = "perm"
-	case k < 38:
+	case k < 34:
 		kind = "seq"
-	case k < 62:
+	case k < 56:
 		kind = "conc"
-	case k < 76:
+	case k < 69:
 		kind = "race"
-	case k < 92:
+	case k < 84:
 		kind = "batchreject"
-	default:
+	case k < 90:
 		kind = "exemptcap"
+	case k < 95:
+		kind = "exemptrace"
+	default:
+		kind = "sameshare"
 	}
 	g := newGen(c, kind)
 	var desc string
@@ -205,6 +217,16 @@ func runCase(c *kit.Case) {
 		phases := g.genExemptCap()
 		desc = g.describe(phases)
 		st["exemptcap_cases"]++
+		runWorld(c, g.sc, phases, st)
+	case "exemptrace":
+		phases := g.genExemptRace(st)
+		desc = g.describe(phases)
+		st["exemptrace_cases"]++
+		runWorld(c, g.sc, phases, st)
+	case "sameshare":
+		phases := g.genSameShare(st)
+		desc = g.describe(phases)
+		st["sameshare_cases"]++
 		runWorld(c, g.sc, phases, st)
 	default:
 		phases := g.genRandom(kind == "conc")
@@ -262,6 +284,15 @@ func newGen(c *kit.Case, kind string) *gen {
 	sc.nInt = 1 + rng.Intn(2)
 	if kind == "race" || (kind != "perm" && rng.Intn(4) != 0) {
 		sc.y = &yielder{seed: uint64(rng.Int63()), pGosched: uint64(rng.Intn(200)), pSleep: uint64(rng.Intn(12))}
+	}
+	switch kind {
+	case "exemptrace": // slow MessageRoot: the threshold evaluation outside the store's lock takes a while
+		sc.y = &yielder{seed: uint64(rng.Int63()), pGosched: uint64(100 + rng.Intn(200)), pSleep: uint64(rng.Intn(12))}
+		sc.y.boost[ypRoot] = uint64(150 + rng.Intn(350))
+	case "sameshare": // slow Clone / MarshalJSON: the duplicate check and the insert take a while
+		sc.y = &yielder{seed: uint64(rng.Int63()), pGosched: uint64(100 + rng.Intn(200)), pSleep: uint64(rng.Intn(12))}
+		sc.y.boost[ypClone] = uint64(100 + rng.Intn(400))
+		sc.y.boost[ypMarshal] = uint64(rng.Intn(200))
 	}
 
 	return &gen{c: c, rng: rng, sc: sc}
@@ -960,6 +991,176 @@ func (g *gen) genExemptCap() []*phaseT {
 	return phases
 }
 
+// genExemptRace: the exempt-duty cap under concurrency. One or two shares take part in every
+// never-expiring duty of a validator and hold exemptCap entries; every old key holds threshold-1
+// matching partials. In each round several goroutines store the threshold-completing partial of
+// another share into the capped shares' OLDEST keys while the capped shares store further duties,
+// which evicts their partials from exactly those keys (the threshold evaluation of the completing
+// store runs outside the store's lock, the values' MessageRoot is slow). What correct code may
+// do there is order dependent (trigger with the capped share's partial, or no trigger because it
+// was evicted first), so these keys are judged by the content of their triggers only.
+func (g *gen) genExemptRace(st stats) []*phaseT {
+	rng := g.rng
+	sc := g.sc
+	typ := core.DutyExit
+	real := rng.Intn(4) == 0
+	if rng.Intn(3) == 0 {
+		typ, real = core.DutyBuilderRegistration, rng.Intn(4) == 0
+	}
+	nVals := 1 + rng.Intn(2)
+	pkPerm := rng.Perm(len(pkPool))
+	shares := rng.Perm(sc.n)
+	for i := range shares {
+		shares[i]++
+	}
+	nCapped := 1
+	if sc.t-1 >= 2 && rng.Intn(2) == 0 {
+		nCapped = 2
+	}
+	capped := shares[:nCapped]
+	fill := shares[nCapped : sc.t-1] // threshold-1 partials per key in total
+	completers := shares[sc.t-1:]    // at least one
+	rounds := 2 + rng.Intn(4)
+	var per []int
+	total := exemptCap
+	for r := 0; r < rounds; r++ {
+		b := 2 + rng.Intn(4)
+		per = append(per, b)
+		total += b
+	}
+	baseSlot := uint64(32 * (1 + rng.Intn(50)))
+	keyOf := func(j, v int) int { return j*nVals + v }
+	for j := 0; j < total; j++ {
+		d := core.Duty{Slot: baseSlot + uint64(32*j), Type: typ}
+		for v := 0; v < nVals; v++ {
+			g.addKey(d, pkPool[pkPerm[v]], 0, real)
+		}
+	}
+	dutyOf := func(j int) core.Duty { return sc.keys[keyOf(j, 0)].Duty }
+	single := func(j, v, share, variant int) *opT {
+		return &opT{duty: dutyOf(j), internal: rng.Intn(5) == 0, vals: []*val{g.newVal(keyOf(j, v), share, variant)}}
+	}
+	var phases []*phaseT
+	seq := func(ops ...*opT) {
+		for _, o := range ops {
+			phases = append(phases, &phaseT{ops: []*opT{o}, g: 1})
+		}
+	}
+	// a store of one share for duty j, for all validators (one batch or singles)
+	storeAll := func(j, share, variant int) []*opT {
+		if nVals == 2 && rng.Intn(2) == 0 {
+			return []*opT{{duty: dutyOf(j), internal: rng.Intn(5) == 0, vals: []*val{g.newVal(keyOf(j, 0), share, variant), g.newVal(keyOf(j, 1), share, variant)}}}
+		}
+		var ops []*opT
+		for v := 0; v < nVals; v++ {
+			ops = append(ops, single(j, v, share, variant))
+		}
+
+		return ops
+	}
+	// history: capped shares first (their partial sits at the front of every entry), then the fill shares
+	for j := 0; j < exemptCap; j++ {
+		for _, s := range capped {
+			seq(storeAll(j, s, 0)...)
+		}
+		for _, s := range fill {
+			seq(storeAll(j, s, 0)...)
+		}
+	}
+	oldest, next := 0, exemptCap
+	for _, b := range per {
+		var ops []*opT
+		for i := 0; i < b; i++ {
+			for v := 0; v < nVals; v++ {
+				ops = append(ops, single(oldest+i, v, kit.Pick(rng, completers), 0)) // completes threshold on an oldest key
+				st["exemptrace_completions_racing_eviction"]++
+			}
+			for _, s := range capped {
+				ops = append(ops, storeAll(next+i, s, 0)...) // evicts this share's partial from the oldest key
+			}
+		}
+		rng.Shuffle(len(ops), func(i, j int) { ops[i], ops[j] = ops[j], ops[i] })
+		gor := len(ops)
+		if gor > 8 && rng.Intn(2) == 0 {
+			gor = 4 + rng.Intn(5)
+		}
+		phases = append(phases, &phaseT{ops: ops, g: gor})
+		// afterwards the new duties get their fill shares (sequentially)
+		for i := 0; i < b; i++ {
+			for _, s := range fill {
+				seq(storeAll(next+i, s, 0)...)
+			}
+		}
+		oldest += b
+		next += b
+	}
+
+	return phases
+}
+
+// genSameShare: many rounds in which 2-4 goroutines, released by one barrier, store partials of
+// the SAME share for the same key with two different values (plus duplicates of them), internal
+// and external mixed, with slow Clone/MarshalJSON. Exactly one of the two values may ever be
+// accepted; the key's other shares arrive before, during and after the contest.
+func (g *gen) genSameShare(st stats) []*phaseT {
+	rng := g.rng
+	sc := g.sc
+	rounds := 12 + rng.Intn(25)
+	used := map[core.Duty]bool{}
+	exempt := 0
+	pkPerm := rng.Perm(len(pkPool))
+	var phases []*phaseT
+	for r := 0; r < rounds; r++ {
+		d, real := g.pickDuty(used, exempt < 2)
+		if exemptType(d.Type) {
+			exempt++
+		}
+		sub := uint64(0)
+		if core.IsSyncSubcommitteeDuty(d.Type) {
+			sub = uint64(rng.Intn(4))
+		}
+		k := g.addKey(d, pkPool[pkPerm[rng.Intn(3)]], sub, real)
+		shares := rng.Perm(sc.n)
+		for i := range shares {
+			shares[i]++
+		}
+		contested := shares[0]
+		rest := shares[1:]
+		ext := func(v *val) *opT { return &opT{duty: d, internal: rng.Intn(3) == 0, vals: []*val{v}} }
+		pre := rng.Intn(len(rest) + 1)
+		if rng.Intn(2) == 0 && sc.t-1 <= len(rest) {
+			pre = sc.t - 1 // the contested share completes the threshold
+		}
+		for _, s := range rest[:pre] {
+			phases = append(phases, &phaseT{ops: []*opT{ext(g.newVal(k, s, 0))}, g: 1})
+		}
+		a := g.newVal(k, contested, 0)
+		bv := g.newVal(k, contested, rng.Intn(2)) // same root with another signature, or another root
+		ops := []*opT{ext(a), ext(bv)}
+		for extra := rng.Intn(3); extra > 0; extra-- {
+			if rng.Intn(2) == 0 {
+				ops = append(ops, ext(a))
+			} else {
+				ops = append(ops, ext(bv))
+			}
+		}
+		if pre < len(rest) && rng.Intn(3) == 0 { // an uncontested share stores at the same time
+			ops = append(ops, ext(g.newVal(k, rest[pre], 0)))
+			pre++
+		}
+		rng.Shuffle(len(ops), func(i, j int) { ops[i], ops[j] = ops[j], ops[i] })
+		phases = append(phases, &phaseT{ops: ops, g: len(ops)})
+		st["sameshare_contests"]++
+		if rng.Intn(2) == 0 {
+			for _, s := range rest[pre:] {
+				phases = append(phases, &phaseT{ops: []*opT{ext(g.newVal(k, s, 0))}, g: 1})
+			}
+		}
+	}
+
+	return phases
+}
+
 // runPerm generates a small scenario and runs every order of its batches on a fresh DB each.
 func (g *gen) runPerm(st stats) string {
 	rng := g.rng
@@ -1113,8 +1314,10 @@ type world struct {
 	// never-expiring duties: per (share, validator, duty type) the keys by recency of the share's
 	// (possibly) fresh stores, newest first; a key behind position exemptCap may have lost that
 	// share's partial to the cap and is from then on not judged for exactly-once / no-loss.
-	exemptL map[exemptEK][]int
-	tainted map[int]bool
+	exemptL     map[exemptEK][][]int // groups of keys, newest group first; the order inside a group (stored concurrently) is unknown
+	placeholder int
+	pretouched  bool // the running phase registered its never-expiring stores up front (preTaint)
+	tainted     map[int]bool
 }
 
 type exemptEK struct {
@@ -1132,7 +1335,7 @@ func runWorld(c *kit.Case, sc *scenario, phases []*phaseT, st stats) {
 		submitted: map[slotT][]*val{}, accepted: map[slotT]*val{},
 		trigCount: map[[2]int]int{}, intCount: map[[2]int]int{}, expired: map[core.Duty]bool{},
 		batchErr: map[int]bool{}, reported: map[string]bool{}, lostDone: map[[2]int]bool{},
-		callTrig: map[int]int{}, exemptL: map[exemptEK][]int{}, tainted: map[int]bool{},
+		callTrig: map[int]int{}, exemptL: map[exemptEK][][]int{}, tainted: map[int]bool{},
 	}
 	for i, k := range sc.keys {
 		w.keyIdx[k] = i
@@ -1158,6 +1361,7 @@ func runWorld(c *kit.Case, sc *scenario, phases []*phaseT, st stats) {
 		w.mu.Lock()
 		w.phase = pi
 		w.conc = ph.g > 1 && len(ph.ops) > 1
+		w.pretouched = false
 		w.mu.Unlock()
 		w.runPhase(ph)
 		if w.stuck {
@@ -1182,6 +1386,7 @@ func (w *world) runPhase(ph *phaseT) {
 		if g < 1 {
 			g = 1
 		}
+		w.preTaint(ph)
 		start := make(chan struct{})
 		var wg sync.WaitGroup
 		for i := 0; i < g; i++ {
@@ -1390,31 +1595,117 @@ func (w *world) afterCall(rec *callRec, err error) {
 }
 
 // exemptTouch records a (possibly) fresh store of v's share at v's never-expiring key: the key
-// becomes the share's newest entry; keys now behind position exemptCap may have lost this share's
-// partial. w.mu must be held.
+// becomes the share's newest entry; keys that may now be behind position exemptCap may have lost
+// this share's partial. In a concurrent phase the stores were registered up front by preTaint
+// (their order is unknown), so nothing is done here. w.mu must be held.
 func (w *world) exemptTouch(v *val) {
 	key := w.sc.keys[v.key]
-	if !exemptType(key.Duty.Type) {
+	if !exemptType(key.Duty.Type) || w.pretouched {
 		return
 	}
 	ek := exemptEK{share: v.share, pk: key.PK, typ: key.Duty.Type}
-	l := w.exemptL[ek]
-	out := make([]int, 0, len(l)+1)
-	out = append(out, v.key)
-	for _, k := range l {
-		if k != v.key {
-			out = append(out, k)
+	w.exemptFront(ek, []int{v.key}, fmt.Sprintf("call %d", len(w.calls)-1))
+}
+
+// exemptFront makes keys (stored in unknown order among themselves) the newest group of the share
+// and stops judging every key whose largest possible position is exemptCap or more.
+func (w *world) exemptFront(ek exemptEK, keys []int, when string) {
+	in := map[int]bool{}
+	for _, k := range keys {
+		in[k] = true
+	}
+	out := [][]int{keys}
+	n := len(keys)
+	for _, grp := range w.exemptL[ek] {
+		var rest []int
+		for _, k := range grp {
+			if !in[k] {
+				rest = append(rest, k)
+			}
+		}
+		if len(rest) > 0 {
+			out = append(out, rest)
+			n += len(rest)
 		}
 	}
 	w.exemptL[ek] = out
-	if len(out) > exemptCap {
-		w.st["exempt_fresh_stores_by_share_beyond_cap"]++
+	if n > exemptCap {
+		w.st["exempt_fresh_stores_by_share_beyond_cap"] += int64(len(keys))
 	}
-	for _, k := range out[min(len(out), exemptCap):] {
-		if !w.tainted[k] {
-			w.tainted[k] = true
-			w.st["exempt_keys_no_longer_judged"]++
-			w.events = append(w.events, fmt.Sprintf("call %d: k%d no longer judged (share %d stored %d newer never-expiring duties)", len(w.calls)-1, k, v.share, exemptCap))
+	newer := 0
+	for _, grp := range out {
+		if newer+len(grp)-1 >= exemptCap { // some order puts every key of this group at or behind the cap
+			for _, k := range grp {
+				if k >= 0 && !w.tainted[k] {
+					w.tainted[k] = true
+					w.st["exempt_keys_no_longer_judged"]++
+					w.events = append(w.events, fmt.Sprintf("%s: k%d no longer judged (share %d may have stored %d newer never-expiring duties)", when, k, ek.share, exemptCap))
+				}
+			}
+		}
+		newer += len(grp)
+	}
+}
+
+// exemptLen is the number of distinct never-expiring duties the share has (possibly) stored.
+func (w *world) exemptLen(ek exemptEK) int {
+	n := 0
+	for _, grp := range w.exemptL[ek] {
+		n += len(grp)
+	}
+
+	return n
+}
+
+// preTaint runs before a concurrent phase: the order in which the phase's stores of never-expiring
+// duties happen is unknown, so they are registered up front as one unordered newest group per
+// share, and every key that some order could evict a share's partial from stops being judged for
+// exactly-once / no-loss before the phase starts. A key that already holds an accepted partial of
+// the share and is still judged cannot be stored freshly (the partial is there), so it keeps its
+// position; it still counts as a possible store for the ageing of the others.
+func (w *world) preTaint(ph *phaseT) {
+	w.mu.Lock()
+	defer w.mu.Unlock()
+	w.pretouched = true
+	touched := map[exemptEK][]int{}
+	var eks []exemptEK
+	for _, o := range ph.ops {
+		if !exemptType(o.duty.Type) || w.expired[o.duty] {
+			continue
+		}
+		for _, v := range o.vals {
+			ek := exemptEK{share: v.share, pk: w.sc.keys[v.key].PK, typ: o.duty.Type}
+			dup := false
+			for _, k := range touched[ek] {
+				dup = dup || k == v.key
+			}
+			if !dup {
+				if len(touched[ek]) == 0 {
+					eks = append(eks, ek)
+				}
+				touched[ek] = append(touched[ek], v.key)
+			}
+		}
+	}
+	for _, ek := range eks {
+		var move []int
+		pad := 0
+		for _, k := range touched[ek] {
+			if w.accepted[slotT{k, ek.share}] != nil && !w.tainted[k] {
+				pad++ // cannot be a fresh store; only ages the others (conservatively)
+
+				continue
+			}
+			move = append(move, k)
+		}
+		for i := 0; i < pad; i++ {
+			w.placeholder--
+			move = append(move, w.placeholder) // placeholders: possible stores that occupy a position
+		}
+		if len(move) > 0 {
+			before := w.st["exempt_keys_no_longer_judged"]
+			w.exemptFront(ek, move, fmt.Sprintf("phase %d (concurrent)", w.phase))
+			w.st["exempt_keys_pretainted_for_concurrent_eviction"] += w.st["exempt_keys_no_longer_judged"] - before
 		}
 	}
 }
@@ -1427,7 +1718,7 @@ func (w *world) beyondCap(k int) bool {
 		return false
 	}
 	for sh := 1; sh <= w.sc.n; sh++ {
-		if w.accepted[slotT{k, sh}] != nil && len(w.exemptL[exemptEK{share: sh, pk: key.PK, typ: key.Duty.Type}]) > exemptCap {
+		if w.accepted[slotT{k, sh}] != nil && w.exemptLen(exemptEK{share: sh, pk: key.PK, typ: key.Duty.Type}) > exemptCap {
 			return true
 		}
 	}
@@ -1446,7 +1737,7 @@ func (w *world) beyondCapDuring(k, call int) bool {
 		return false
 	}
 	for _, v := range w.calls[call].op.vals {
-		if v.key == k && len(w.exemptL[exemptEK{share: v.share, pk: key.PK, typ: key.Duty.Type}]) >= exemptCap {
+		if v.key == k && w.exemptLen(exemptEK{share: v.share, pk: key.PK, typ: key.Duty.Type}) >= exemptCap {
 			return true
 		}
 	}
@@ -1552,6 +1843,9 @@ func (w *world) threshSub(sub int) func(context.Context, core.Duty, map[core.Pub
 				} else {
 					w.st["triggers_threshold_lt_n"]++
 				}
+			}
+			if sub == 0 && w.tainted[k] && w.conc && w.sc.kind == "exemptrace" {
+				w.st["exemptrace_triggers_on_keys_under_eviction"]++
 			}
 			capClass := w.beyondCapDuring(k, call)
 			if capClass && !w.tainted[k] && sub == 0 {
@@ -1746,6 +2040,13 @@ func (w *world) finalStats() {
 			w.st["keys_reached_threshold"]++
 		} else if !w.expired[key.Duty] {
 			w.st["keys_below_threshold_at_end"]++
+		}
+	}
+	if w.sc.kind == "sameshare" {
+		for s, vs := range w.submitted {
+			if len(vs) >= 2 && w.accepted[s] != nil {
+				w.st["sameshare_contests_decided"]++
+			}
 		}
 	}
 	w.dl.mu.Lock()
